@@ -274,3 +274,32 @@ func factCallTrue(b *ssa.BasicBlock) []*ssa.Call {
 	}
 	return out
 }
+
+// siteInFn: the instruction of fn through which the given instruction is
+// reached: the instruction itself if it is in fn (or in a literal of fn, then
+// the place where that literal is made is not tracked: the call that leads to
+// it is), else the first call in fn whose static callee's in-repository
+// closure contains the instruction's function.
+func siteInFn(fn *ssa.Function, in ssa.Instruction) ssa.Instruction {
+	if in.Parent() == fn {
+		return in
+	}
+	target := in.Parent()
+	var site ssa.Instruction
+	ssau.Instrs(fn, func(i2 ssa.Instruction) {
+		ci, ok := i2.(ssa.CallInstruction)
+		if !ok || site != nil {
+			return
+		}
+		sc := ci.Common().StaticCallee()
+		if sc == nil {
+			return
+		}
+		for _, g := range pkgClosure(sc) {
+			if g == target {
+				site = i2
+			}
+		}
+	})
+	return site
+}
